@@ -1187,20 +1187,35 @@ func ruleServerErrorMapping(c *chk.Ctx, d *dispatchModel) {
 	if n < 3 {
 		c.Undecided("PROV.errmap", f, "error member stores", f.Pos(), "found %d stores to the error member (want 3)", n)
 	}
-	// D6: invoke returns json.Marshal's pair unmodified
-	okPair := false
+	ruleInvokeResultsMarshalled(c, d)
+}
+
+// ruleInvokeResultsMarshalled: C14-D6 / C10-D4 / C13-D3.
+func ruleInvokeResultsMarshalled(c *chk.Ctx, d *dispatchModel) {
+	// D6: every result the invoke function returns is json.Marshal's (bytes, error) pair, unmodified
+	okPair, n := true, 0
+	var bad string
 	for _, r := range ir.Returns(d.invoke) {
 		v0 := ir.ReturnResult(r, 0)
+		if ir.IsNilConst(v0) {
+			continue
+		}
+		n++
 		if ct, ok := v0.(*ssa.ChangeType); ok {
 			v0 = ct.X
 		}
+		good := false
 		if e, ok := v0.(*ssa.Extract); ok && e.Index == 0 {
 			if call, ok := e.Tuple.(*ssa.Call); ok && ir.IsCallTo(&call.Call, "encoding/json.Marshal") && ir.IsExtractOf(ir.ReturnResult(r, 1), call, 1) {
-				okPair = true
+				good = true
 			}
 		}
+		if !good {
+			okPair = false
+			bad = c.P.Pos(r.Pos())
+		}
 	}
-	c.Check(okPair, "PROV.errmap", d.invoke, "unmarshalable result becomes an error", d.invoke.Pos(), "the invoke function returns json.Marshal's (bytes, error) pair unmodified", "a result that cannot be marshalled is not reported as the call's error")
+	c.Check(okPair && n > 0, "PROV.errmap", d.invoke, "results are exactly json.Marshal's pair", d.invoke.Pos(), "every non-nil result of the invoke function is json.Marshal's (bytes, error) pair: an unmarshalable or invalid value becomes the call's error, never part of the reply", "the invoke function can return result bytes that did not come out of json.Marshal (at "+bad+"): a handler value that is not valid JSON would be spliced into the reply verbatim, or a marshal error lost")
 }
 
 func taOperand(ta *ssa.TypeAssert) ssa.Value {
